@@ -142,17 +142,20 @@ def _resolve_module_name(ref: str, module: str | None) -> str | None:
     if module is not None:
         return module
 
-    # Easy path, use the qualname if it's provided.
-    module = ref.split(".", maxsplit=1)[0]
-    if module != ref:
-        return module
+    # Easy path, use the qualname if it's provided: only a loaded module qualifies a
+    #   (dotted) name. `Outer.Inner` and `list[decimal.Decimal]` are expressions for
+    #   the namespace they were written in.
+    root, _, rest = ref.partition(".")
+    if rest and root in sys.modules and all(p.isidentifier() for p in rest.split(".")):
+        return root
     # Harder path, find the module in the stack whose namespace binds this name:
     #   that is where the reference can be evaluated, whatever object it is bound to
     #   (an alias for `list[int]` is bound in the caller's module, not in `builtins`).
+    name = root if root.isidentifier() else ref
     frame = inspect.currentframe()
     while frame:
         found = frame.f_globals.get("__name__")
-        if found and ref in frame.f_globals and not found.startswith(frames.PKG_NAME):
+        if found and name in frame.f_globals and not found.startswith(frames.PKG_NAME):
             return found
         frame = frame.f_back
     # Otherwise, find the actual object in the stack frame, if possible.
